@@ -97,6 +97,7 @@ type Op struct {
 	Ety int    `json:"ety,omitempty"`
 	IDs []int  `json:"ids,omitempty"`
 	V   int64  `json:"v,omitempty"`
+	Bar int    `json:"bar,omitempty"` // > 0: wait at barrier number Bar (all goroutines of the case) right before the call
 }
 type Case struct {
 	ID      int    `json:"id"`
@@ -106,6 +107,7 @@ type Case struct {
 	Senders int    `json:"senders"`
 	Sends   int    `json:"sends"`
 	Seed    uint64 `json:"seed"`
+	Types   []int  `json:"types,omitempty"` // event types observed after quiescence (default 1, 2)
 }
 
 type opRec struct {
@@ -127,6 +129,19 @@ type world struct {
 	clock int64
 	nmu   sync.Mutex
 	nodes []*cnode
+	bars  []int64 // arrivals per barrier
+	nthr  int64
+}
+
+// spin barrier: the goroutines of a case make their calls of one round as simultaneously as possible
+func (w *world) barrier(k int) {
+	if k <= 0 || k >= len(w.bars) {
+		return
+	}
+	atomic.AddInt64(&w.bars[k], 1)
+	for atomic.LoadInt64(&w.bars[k]) < w.nthr {
+		runtime.Gosched()
+	}
 }
 
 func (w *world) tick() int64 { return atomic.AddInt64(&w.clock, 1) }
@@ -291,7 +306,20 @@ type outcome struct {
 
 func runCase(c Case, readers bool) (out outcome) {
 	b, _ := el.NewBroker()
-	w := &world{b: b}
+	w := &world{b: b, nthr: int64(len(c.Threads))}
+	maxBar := 0
+	for _, th := range c.Threads {
+		for _, op := range th {
+			if op.Bar > maxBar {
+				maxBar = op.Bar
+			}
+		}
+	}
+	w.bars = make([]int64, maxBar+1)
+	types := c.Types
+	if len(types) == 0 {
+		types = []int{1, 2}
+	}
 	opid := 0
 	for _, op := range c.Setup {
 		opid++
@@ -320,6 +348,7 @@ func runCase(c Case, readers bool) (out outcome) {
 			<-start
 			var recs []opRec
 			for i, op := range th {
+				w.barrier(op.Bar)
 				recs = append(recs, w.apply(first+i+1, op))
 				if i%2 == 1 {
 					runtime.Gosched()
@@ -337,7 +366,7 @@ func runCase(c Case, readers bool) (out outcome) {
 			<-start
 			var recs []sendRec
 			for i := 0; i < c.Sends; i++ {
-				t := 1 + r.Intn(2)
+				t := types[r.Intn(len(types))]
 				id := s*100000 + i + 1
 				sr := sendRec{id: id, ety: t}
 				sr.inv = w.tick()
@@ -358,8 +387,9 @@ func runCase(c Case, readers bool) (out outcome) {
 	if readers {
 		// read-only and threshold calls, for the race detector (not part of the linearizability oracle)
 		for _, f := range []func(i int){
-			func(i int) { w.b.SuccessThreshold(ety(1 + i%2)); w.b.SuccessThresholdSinks(ety(1 + i%2)) },
-			func(i int) { w.b.IsAnyPipelineRegistered(ety(1 + i%2)) },
+			func(i int) { w.b.SuccessThreshold(ety(types[i%len(types)])); w.b.SuccessThresholdSinks(ety(types[i%len(types)])) },
+			func(i int) { w.b.IsAnyPipelineRegistered(ety(types[i%len(types)])) },
+			func(i int) { _ = w.b.Reopen(context.Background()) },
 			func(i int) { _ = w.b.Reopen(context.Background()) },
 			func(i int) { _ = w.b.SetSuccessThreshold(ety(1+i%2), i%2); _ = w.b.SetSuccessThresholdSinks(ety(1+i%2), 0) },
 		} {
@@ -384,6 +414,15 @@ func runCase(c Case, readers bool) (out outcome) {
 	wg.Wait()
 	close(done)
 	rwg.Wait()
+	// after quiescence: one Send per observed type; it starts after every call returned, so it must reach every pipeline
+	// that is registered by then exactly once
+	for i, t := range types {
+		sr := sendRec{id: 900000 + i, ety: t}
+		sr.inv = w.tick()
+		_, _ = w.b.Send(context.Background(), ety(t), &probe{send: sr.id})
+		sr.ret = w.tick()
+		out.sends = append(out.sends, sr)
+	}
 
 	// attribute Close calls and deliveries
 	closedBy := map[int][]int{}
@@ -416,7 +455,7 @@ func runCase(c Case, readers bool) (out outcome) {
 	sort.Slice(out.ops, func(i, j int) bool { return out.ops[i].inv < out.ops[j].inv })
 	sort.Slice(out.sends, func(i, j int) bool { return out.sends[i].inv < out.sends[j].inv })
 	if !readers {
-		out.final = w.observe([]int{1, 2})
+		out.final = w.observe(types)
 	}
 	return out
 }
@@ -536,6 +575,42 @@ func genCase(r *hc.Rand, threads, nops, senders, sends int) Case {
 	return c
 }
 
+// fresh-type races: the goroutines make the FIRST calls for event types nobody used before, round by round, each round
+// behind a barrier: RegisterPipeline with different pipeline ids, SetSuccessThreshold, SetSuccessThresholdSinks.  The tap
+// nodes are registered in the sequential set-up so that the racing call is the first thing each goroutine does.
+func genFresh(r *hc.Rand, threads, rounds, senders, sends int) Case {
+	g := &gen{r: r, tap: 100, fobj: 50}
+	c := Case{Gen: "fresh", Senders: senders, Sends: sends, Seed: r.U64()}
+	for id := 1; id <= 4; id++ {
+		c.Setup = append(c.Setup, Op{K: "regnode", ID: id, Obj: id, Ty: nodeTy[id]})
+	}
+	c.Threads = make([][]Op, threads)
+	for k := 0; k < rounds; k++ {
+		t := 10 + k
+		c.Types = append(c.Types, t)
+		anyPipe := false
+		for ti := 0; ti < threads; ti++ {
+			x := r.Intn(100)
+			if ti == threads-1 && !anyPipe {
+				x = 0
+			}
+			switch {
+			case x < 64:
+				g.tap++
+				c.Setup = append(c.Setup, Op{K: "regnode", ID: g.tap, Obj: g.tap, Ty: 1})
+				ids := append([]int{g.tap}, menu[r.Intn(len(menu))]...)
+				c.Threads[ti] = append(c.Threads[ti], Op{K: "regpipe", Pid: 1 + ti, Ety: t, IDs: ids, Bar: k + 1})
+				anyPipe = true
+			case x < 82:
+				c.Threads[ti] = append(c.Threads[ti], Op{K: "thr", Ety: t, V: int64(1 + r.Intn(2)), Bar: k + 1})
+			default:
+				c.Threads[ti] = append(c.Threads[ti], Op{K: "thrs", Ety: t, V: int64(1 + r.Intn(2)), Bar: k + 1})
+			}
+		}
+	}
+	return c
+}
+
 type emitter struct {
 	cf      *hc.CaseFile
 	side    *os.File
@@ -563,6 +638,7 @@ func (e *emitter) emit(c Case) {
 	}
 	e.stats["cases"]++
 	e.stats[fmt.Sprintf("threads:%d", len(c.Threads))]++
+	e.stats["gen:"+c.Gen]++
 	e.stats["ops"] += len(o.ops)
 	e.stats["sends"] += len(o.sends)
 	overlap := 0
@@ -597,6 +673,7 @@ func main() {
 	out := flag.String("out", ".", "output directory")
 	mode := flag.String("mode", "cases", "cases: print case files; race: long histories with readers, no case files")
 	ncases := flag.Int("cases", 150, "number of concurrent histories")
+	nfresh := flag.Int("fresh", 0, "number of fresh-type race histories (first calls for unused event types behind a barrier)")
 	maxThreads := flag.Int("threads", 8, "maximal number of registry goroutines (2..)")
 	budget := flag.Int("ops", 12, "registry calls per case in the concurrent phase (spread over the goroutines)")
 	sends := flag.Int("sends", 8, "Sends per sender")
@@ -627,6 +704,10 @@ func main() {
 			for i := 0; i < *ncases; i++ {
 				th := 2 + r.Intn(*maxThreads-1)
 				c := genCase(r.Fork(), th, 6+r.Intn(10), 1+r.Intn(3), *sends*3)
+				if i%2 == 1 {
+					// Reopen / getters / setters running while event types are used for the first time
+					c = genFresh(r.Fork(), 2+r.Intn(3), 6, 1+r.Intn(2), *sends)
+				}
 				o := runCase(c, true)
 				for _, p := range o.panics {
 					fmt.Println("PANIC:", p)
@@ -699,6 +780,9 @@ func main() {
 		}
 		c := genCase(r.Fork(), th, per, 1+r.Intn(3), *sends)
 		e.emit(c)
+	}
+	for i := 0; i < *nfresh; i++ {
+		e.emit(genFresh(r.Fork(), 2+i%3, 3, 1, 2))
 	}
 	finish(e, *out)
 }
